@@ -180,15 +180,18 @@ func init() {
 			{Name: "VC11_WriteTrace", Params: map[string]int{"vsymC11Name": 4, "vsymC11Value": 4096}, NeedReach: []string{"end"}},
 			{Name: "VC11_Read", Params: map[string]int{"vsymC11Name": 4, "vsymC11Value": 4096}, NeedReach: []string{"end", "absent", "short", "wrongattrs"}},
 			{Name: "VC11_Predefined", NeedReach: []string{"end"}},
+			{Name: "VC11_LegacyWriteRead", Params: map[string]int{"vsymC11Name": 4, "vsymC11Value": 4096}, NeedReach: []string{"end", "probe-error"}},
 		},
 		Thorough: []HarnessSpec{
+			{Name: "VC11_LegacyWriteRead", Params: map[string]int{"vsymC11Name": 8, "vsymC11Value": 1 << 16}, NeedReach: []string{"end", "probe-error"}},
 			{Name: "VC11_WriteTrace", Params: map[string]int{"vsymC11Name": 8, "vsymC11Value": 1 << 16}, NeedReach: []string{"end"}},
 			{Name: "VC11_Read", Params: map[string]int{"vsymC11Name": 8, "vsymC11Value": 1 << 16}, NeedReach: []string{"end", "absent", "short", "wrongattrs"}},
 			{Name: "VC11_Predefined", NeedReach: []string{"end"}},
 		},
 		Bounds: []string{"object API (EFIFS.WriteVar / GetVarWithAttributes over fswrapper): symbolic GUID (all 2^128), symbolic 32-bit attribute mask, name = 4 (quick) / 8 symbolic ASCII letters or digits, value / stored file = symbolic bytes of symbolic length <= 4096 (quick) / 65536; every predefined variable definition by name",
-			"file system = recording afero.Fs written in the harness (interpreted): the complete operation trace is asserted"},
-		Outside: []string{"the legacy package-level API (efi/attributes with efi/fs and the immutable-flag ioctl)", "efivars directories other than the default", "names with characters outside [A-Za-z0-9] (path.Clean is interpreted; such characters are excluded by assumption)"},
+			"file system = recording afero.Fs written in the harness (interpreted): the complete operation trace is asserted",
+			"legacy package-level API (efi/attributes.WriteEfivarsWithGuid / ReadEfivarsWithGuid over efi/fs): same trace assertions and read-back, same symbolic inputs"},
+		Outside: []string{"the immutable-flag ioctl of the legacy API is an OS stub (any flag word or error); the attribute-checked typed readers of package efi (GetPK, ...) are not harnessed", "efivars directories other than the default", "names with characters outside [A-Za-z0-9] (path.Clean is interpreted; such characters are excluded by assumption)"},
 		Assumptions: commonAssumptions,
 	}
 	registry["C12"] = &Property{
